@@ -335,6 +335,27 @@ Theorem C17_relay_route_only_adopted : forall s d y pc lk s', rt_reach ch1 sh4 c
   s' = rt_with_x s (rt_add_out d (y, r_tconnected s) (rt_set_pc_lock pc lk (r_x s))).
 Proof. exact (rt_route_only_adopted ch1 sh4 ch2 sh3). Qed.
 
+(* ORDER THROUGH THE BRIDGE, across the relay's handshake window: for every pair and direction, what of the pump's
+   reads (ghost x_seen: every chunk a tunnel pump read, in the order of the reads) is on its way — written to the far
+   tunnel connection, then in the bridge's channel, then parked in the relay's handshake buffer — is, IN THIS ORDER, what
+   the pump read from the near connection with some bytes left out (the handshake line the relay consumed, what a writer
+   could not write to a closed connection, what an unagreed handshake handed back in-band): nothing overtakes *)
+Theorem C17_relay_order : forall s c p b d, rt_reach ch1 sh4 ch2 sh3 s -> nth_error (r_pairs s) c = Some p -> p_br p = Some b ->
+  rt_sub (rt_pipe d c b (r_x s)) (rt_own d c (x_seen (r_x s))).
+Proof. exact (rt_order ch1 sh4 ch2 sh3). Qed.
+
+(* … so what the far connection has been sent of them is an order-preserving image of what the near one delivered *)
+Theorem C17_relay_order_far : forall s c p b d, rt_reach ch1 sh4 ch2 sh3 s -> nth_error (r_pairs s) c = Some p -> p_br p = Some b ->
+  rt_sub (rt_own d c (h_log (rt_half_of d b))) (rt_own d c (x_seen (r_x s))).
+Proof. exact (rt_order_far ch1 sh4 ch2 sh3). Qed.
+
+(* … because parked chunks are flushed before any later chunk of the same pair and direction is forwarded: a pump puts
+   a chunk into its own channel (rather than into the handshake buffer) only when nothing of its pair and direction is parked *)
+Theorem C17_relay_forward_only_when_none_parked : forall s c d n s', rt_reach ch1 sh4 ch2 sh3 s ->
+  rt_step ch1 sh4 ch2 sh3 s (RLPump c d n) = Some s' ->
+  (forall d', rt_buf d' (r_x s') = rt_buf d' (r_x s)) -> rt_own d c (rt_buf d (r_x s)) = [].
+Proof. exact (rt_forward_only_when_none_parked ch1 sh4 ch2 sh3). Qed.
+
 (* the pair that lost the swap (both sides authenticated, both answered): its two channels are closed and
    were never used, no pump was started, and each writer goroutine has closed its connection or does so
    by its next step — unlike transfer.go's acceptOnTunnel, which leaves a losing connection open *)
@@ -373,6 +394,9 @@ Print Assumptions C17_relay_bridge_bytes.
 Print Assumptions C17_relay_pumps_only_adopted.
 Print Assumptions C17_relay_parked_from_adopted.
 Print Assumptions C17_relay_route_only_adopted.
+Print Assumptions C17_relay_order.
+Print Assumptions C17_relay_order_far.
+Print Assumptions C17_relay_forward_only_when_none_parked.
 Print Assumptions C17_relay_inband_agreed_never_in_tunnel.
 Print Assumptions C17_relay_inband_agreed_passes.
 Print Assumptions C17_relay_tunnel_never_inband_once_agreed.
@@ -515,6 +539,27 @@ Proof.
               RLInband RdIn [75; 66]; RLInband RdOut [78; 66];
               RLPeerS 0; RLPump 0 RdOut 3; RLHsRead 3 true false false; RLHs [35; 99; 10]; RLHs []; RLHs []; RLHs [];
               RLInband RdIn [75; 67]; RLInband RdOut [78; 67]; RLWriter 0 RdIn; RLWriter 0 RdOut]).
+  vm_compute. do 3 eexists. repeat split.
+Qed.
+
+(* the history of seed C13-8: the client's ACT shares a segment with "AAA", "BBB" arrives inside the relay's handshake, the
+   server's CFG shares a segment with "SSS" and "TTT" follows: the server's tunnel connection receives the relay's ACT,
+   AAA, BBB; the client's the relay's CFG, SSS, TTT *)
+Example C17_relay_order_example :
+  exists ls s p0 e0, rt_run exr_ch1 exr_sh4 exr_ch2 exr_sh3 rt_init ls = Some s /\
+    r_pairs s = [p0] /\ p_srv p0 = Some e0 /\
+    e_tx e0 = exr_ch2 ++ [35; 97; 10] ++ [65; 65; 65] ++ [66; 66; 66] /\
+    e_tx (p_cli p0) = exr_sh4 ++ [35; 99; 10] ++ [83; 83; 83] ++ [84; 84; 84].
+Proof.
+  exists ([RLConnect [PWrite exr_ch1; PWrite [35; 65; 10; 65; 65; 65]; PWrite [66; 66; 66]]; RLAccept 0; RLCheck; RLPeerC 0]
+          ++ exr_greet 0 [PWrite exr_sh3; PWrite [35; 67; 10; 83; 83; 83]; PWrite [84; 84; 84]]
+          ++ [exr_H 0; exr_H 0; exr_H 0; exr_H 0; exr_H 0]
+          ++ [RLPeerC 0; RLPump 0 RdIn 6; RLHsRead 3 true true true; RLHs []; RLHs [35; 97; 10];
+              RLPeerC 0; RLPump 0 RdIn 3;
+              RLPeerS 0; RLPump 0 RdOut 6; RLHsRead 3 true false false; RLHs [35; 99; 10];
+              RLHs []; RLHs []; RLHs []; RLHs []; RLHs []; RLHs [];
+              RLPeerS 0; RLPump 0 RdOut 3;
+              RLWriter 0 RdIn; RLWriter 0 RdIn; RLWriter 0 RdIn; RLWriter 0 RdOut; RLWriter 0 RdOut; RLWriter 0 RdOut]).
   vm_compute. do 3 eexists. repeat split.
 Qed.
 
